@@ -56,3 +56,30 @@ pub fn discharged_add(input: &[u8; 1]) -> u8 {
 pub fn lossy_text(input: &[u8]) -> String {
     String::from_utf8_lossy(input).into_owned()
 }
+
+/// Normalisation control (sa/inline.py): `split_caller` was "refactored" into a caller and a
+/// private helper; after splicing, the caller's body must contain the helper's raw filesystem
+/// call, guarded by the flag computed in the caller, and the helper must be gone.
+pub struct Splitter {
+    pub armed: bool,
+    pub hits: u32,
+}
+
+impl Splitter {
+    pub fn split_caller(&mut self, path: &str) -> std::io::Result<u32> {
+        let go = match self.armed {
+            true => true,
+            false => false,
+        };
+        let n = self.split_helper(go, path)?;
+        Ok(n + 1)
+    }
+
+    fn split_helper(&mut self, go: bool, path: &str) -> std::io::Result<u32> {
+        if go {
+            std::fs::remove_file(path)?;
+            self.hits += 1;
+        }
+        Ok(self.hits)
+    }
+}
